@@ -26,6 +26,7 @@ import (
 	"github.com/cosmos/interchain-security/v7/x/ccv/provider/migrations"
 	"github.com/cosmos/interchain-security/v7/x/ccv/provider/simulation"
 	providertypes "github.com/cosmos/interchain-security/v7/x/ccv/provider/types"
+	ccvtypes "github.com/cosmos/interchain-security/v7/x/ccv/types"
 )
 
 var (
@@ -178,18 +179,23 @@ func (am AppModule) BeginBlock(ctx context.Context) error {
 	if err := am.keeper.BeginBlockLaunchConsumers(sdkCtx); err != nil {
 		return err
 	}
+	ccvtypes.VerifTrace(sdkCtx, "PBeginLaunch")
 	// Stop and remove state for any consumer chains that are due to be stopped
 	if err := am.keeper.BeginBlockRemoveConsumers(sdkCtx); err != nil {
 		return err
 	}
+	ccvtypes.VerifTrace(sdkCtx, "PBeginRemove")
 	// Update the infraction parameters for consumer chains that are scheduled for an update
 	if err := am.keeper.BeginBlockUpdateInfractionParameters(sdkCtx); err != nil {
 		return err
 	}
+	ccvtypes.VerifTrace(sdkCtx, "PBeginInfraction")
 	// Check for replenishing slash meter before any slash packets are processed for this block
 	am.keeper.BeginBlockCIS(sdkCtx)
+	ccvtypes.VerifTrace(sdkCtx, "PBeginCIS")
 	// BeginBlock logic needed for the  Reward Distribution sub-protocol
 	am.keeper.BeginBlockRD(sdkCtx)
+	ccvtypes.VerifTrace(sdkCtx, "PBeginRD")
 
 	return nil
 }
@@ -201,6 +207,7 @@ func (am AppModule) EndBlock(ctx context.Context) ([]abci.ValidatorUpdate, error
 	// EndBlock logic needed for the Consumer Initiated Slashing sub-protocol.
 	// Important: EndBlockCIS must be called before EndBlockVSU
 	am.keeper.EndBlockCIS(sdkCtx)
+	ccvtypes.VerifTrace(sdkCtx, "PEndCIS")
 	// EndBlock logic needed for the Validator Set Update sub-protocol
 	return am.keeper.EndBlockVSU(sdkCtx)
 }
